@@ -10,6 +10,16 @@ CHECKS = {
     text='TLC explores all set_value/evaluate histories (unbounded length, finite state) of the implementation-shaped engine model for several workbooks (chains, ranges, nested ranges, unbounded ranges, CSE arrays) x sources (no data, xlsx with stored results, from_file of yml/json/pkl) and checks Coherent/RetOK/Closure/EdgesComplete; an edge-covering tour then executes every model transition on the real object, comparing each evaluate result with a from-scratch compile and the full abstract state with the model.',
     note='assumes the projection (cell_map, values, dep_graph edges, _values_changed) captures the state behaviour depends on; workbooks are the listed 6-8 node shapes, values from an 5-8 value pool',
     ref='§3 C01'),
+ 'C05': dict(
+    technique='Engine.tla with observer ranges, unbounded rows/columns and address lists explored exhaustively by TLC; every transition replayed on the real object under every address spelling; all first-evaluation permutations replayed as paths of the TLC graph',
+    text='Every access path (cell, enclosing rectangle, A:A / 1:1, address list/tuple/generator, sheet-less address, address objects) is an action of the model and every first-evaluation order a path of its state graph; TLC checks RetOK/Coherent on all of them, and the tour executes each transition on the real ExcelCompiler comparing each returned element with evaluate(cell) of a from-scratch compile.',
+    note='three observer workbooks (chain, nested ranges, CSE array) x sources; one settable input in quick tier; single-sheet workbooks',
+    ref='§3 C05'),
+ 'C19': dict(
+    technique='TLA+ enumerator machine over exact decimals (Rounding.tla) model-checked by TLC; exported vectors executed on the real functions and formulas',
+    text='ROUND/ROUNDUP/ROUNDDOWN/TRUNC/INT/MOD/CEILING*/FLOOR*/EVEN/ODD are defined on integer pairs (k, j); TLC checks bracket, fixed-point, tie, MOD-identity and duality laws on every enumerated state (ties and near-ties generated exactly) and each state is executed on excellib and through compiled formulas.',
+    note='CEILING/FLOOR sign conventions with negative arguments accept either neighbour; decimal significances (0.1) and magnitudes beyond 1e9 are outside the domain; binary floats only get the magnitude laws',
+    ref='§3 C19'),
  'C18': dict(
     technique='TLA+ odometer machine (Radix.tla) model-checked by TLC; every reachable state exported as a vector and executed on the real functions',
     text='TLC checks the two\'s-complement definitions (successor adds one, regrouping of bits agrees, extremes) on all 1024 binary strings and on 128-step walks across every octal/hex boundary; each visited state is then a test vector for DEC2x/x2DEC/x2y, places 1..10, illegal characters and over-long strings, through library calls and compiled formulas.',
